@@ -145,6 +145,8 @@ def gen_scenario(prng, tier, index, focus):
         sc["reuse_object"] = True       # one rewiring object for the whole history (limit raised through the setter)
     if prng.random() < 0.3:
         sc["node_order"] = [prng.choice(("reversed", "shuffled", "edges_first")), prng.randrange(2 ** 31)]
+    if prng.random() < 0.3:
+        sc["carry"] = [prng.randrange(2 ** 31), prng.choice((1, 2, 3, 5))]      # label permutation seed, accepted swaps on network B
     if prng.random() < 0.5:
         sc["chain"] = prng.choice((1, 1, 2, 3))     # accepted swaps of a second stage run on the first stage's result
     return sc
@@ -256,6 +258,39 @@ def run_history(sc, ctx, prefix, on_state, on_abort=None):
             on_state(info["states"], prev, G2, None, dict(info, G0=prev, net=net1, before=before1))
         elif st not in ("ok", "budget"):
             ctx.violate(f"{P}.raised", f"second rewiring stage: {st} {describe_exc(G2) if st == 'raised' else ''}")
+            return info
+    # ONE rewiring object carried to ANOTHER network through its public setter (ensemble use): network B is the same spec with
+    # the vertex labels permuted, so every label's joint degree may differ while the classes - hence the target - stay valid.
+    # Anything the object remembered about network A per label is stale now; B's result is judged like any other state.
+    if sc.get("carry") and info["states"] > 0 and not info["inconclusive"] and "mc" in dir():
+        n = sc["spec"]["n"]
+        import random as _r
+        perm = list(range(n))
+        _r.Random(sc["carry"][0]).shuffle(perm)
+        specB = dict(sc["spec"], motifs=[dict(m, verts=[perm[v] for v in m["verts"]]) for m in sc["spec"]["motifs"]])
+        try:
+            netB = netsim.build_network(specB)
+        except Exception as e:
+            from .simrandom import HarnessError
+            raise HarnessError(f"scenario construction failed (network B): {e!r}")
+        beforeB = netsim.snapshot(netB.G)
+        # one accepted swap per judged step on multi-edge motifs (the recorded motif-id finding is recognised by its
+        # one-swap fingerprint); several at once only where every motif is a single edge
+        single = all(t["size"] == 2 and "chord_topo" not in t and not t.get("part_only") for t in sc["spec"]["topos"])
+        nsw = sc["carry"][1] if single else 1
+        mc.network = netB
+        mc.convergence_limit = nsw - 1
+        src3 = ctx.source("rewire-carried", sc.get("policy"))
+        st, G3 = ctx.call(src3, mc.rewire, budget=budget_for(nsw), label="rewire[object carried to another network]")
+        ctx.check("C11.input")
+        ctx.probe("rewiring_object_carried_to_another_network")
+        if netsim.snapshot(netB.G) != beforeB:
+            ctx.violate("C11.input", f"the second network given to one rewiring object (through its setter) was modified by rewire() (status={st})")
+            return info
+        if st == "ok" and isinstance(G3, nx.Graph):
+            on_state(info["states"], netB.G, G3, None, dict(info, G0=netB.G, net=netB, before=beforeB))
+        elif st not in ("ok", "budget"):
+            ctx.violate(f"{P}.raised", f"rewire() on a second network given to the same object: {st} {describe_exc(G3) if st == 'raised' else ''}")
             return info
     # abort at a scheduler-chosen draw of the longest run, then the input must be untouched
     if sc["variant"] == "faults" and info["max_decisions"] > 0:
